@@ -32,7 +32,7 @@ fn drop_ent(ent: HEnt) {
     drop(ent);
 }
 /// put a handle into a slot; whatever was there is dropped first
-fn put(x: usize, ent: HEnt) {
+pub(crate) fn put(x: usize, ent: HEnt) {
     let old = world(|w| {
         if w.store.len() <= x {
             w.store.resize_with(x + 1, || None);
@@ -53,7 +53,7 @@ fn put_back(x: usize, ent: HEnt) {
         put(x, ent)
     }
 }
-fn new_handle(aid: usize, h: H) -> HEnt {
+pub(crate) fn new_handle(aid: usize, h: H) -> HEnt {
     let hid = exec::fresh_hid();
     e(&[ev::HANDLE as usize, hid, aid, h.kind() as usize]);
     HEnt { hid, aid, h, spent: false }
